@@ -1,4 +1,4 @@
-// @unit id=v_streams props=C19,C17,C07,C15,C09,C02,C03,C04,C05,C08 tier=quick
+// @unit id=v_streams props=C19,C17,C07,C15,C09,C02,C03,C04,C05,C08,C13,C18 tier=quick
 // Verus contracts on the REAL bodies of src/proto/streams/streams.rs `drop_stream_ref` and `maybe_cancel` (extracted on
 // every run): what happens when the application drops a handle on a stream (C19 "once the application has dropped its
 // handles the endpoint retains nothing", C17 implicit reset of a stream nobody listens to any more).
@@ -19,6 +19,14 @@
 // ASSUMED contracts (each verified elsewhere): Send::schedule_implicit_reset (unit v_send), Recv::enqueue_reset_expiration
 // (Kani recv_enqueue_reset_expiration), Recv::release_closed_capacity (= release_connection_capacity + clear_recv_buffer,
 // unit v_recv), Counts::transition_after (Kani counts_transition_after), Queue::take/pop (list model).
+//
+// Further down, the receive DISPATCH layer of streams.rs, each with its own comment: `Inner::{recv_go_away, handle_error,
+// recv_eof, recv_reset, recv_window_update, recv_headers, recv_push_promise, send_reset}`, `Actions::{send_reset,
+// reset_on_recv_stream_err}` (C09 containment, C18 quota of provoked resets), `StreamRef::send_push_promise`,
+// `Streams::send_request`, `OpaqueStreamRef::new` — all four `Stream::new` sites that create a usable stream are under the
+// new-stream window obligation of `SStore::insert_new` (C02 / C03).  A closure passed to `Counts::transition` that contains
+// an early `return` is LIFTED into a method of its own by a second extraction of the same function (everything outside
+// the closure body is cut away by one regular expression): recv_headers, recv_push_promise, Actions::send_reset.
 use vstd::prelude::*;
 use vstd::std_specs::cmp::*;
 use std::cmp::{self, Ordering};
@@ -262,9 +270,21 @@ pub struct Counts {
     pub transitions: Ghost<int>,
     /// ghost: number of streams handed to Send::schedule_implicit_reset so far
     pub cancelled: Ghost<int>,
+    /// ghost: how often the lifetime quota of streams reset because of the PEER's misbehaviour was charged (C18)
+    pub err_resets: Ghost<int>,
 }
 impl Counts {
     pub fn peer(&self) -> (r: PeerDyn) ensures r == self.peer { self.peer }
+
+    /// Counts::can_inc_num_local_error_resets / inc_num_local_error_resets (their real bodies: unit v_counts, Kani counts_reset_quotas)
+    pub uninterp spec fn quota_left(self) -> bool;
+    #[verifier::external_body]
+    pub fn can_inc_num_local_error_resets(&self) -> (r: bool) ensures r == self.quota_left() { unimplemented!() }
+    #[verifier::external_body]
+    pub fn inc_num_local_error_resets(&mut self)
+        requires old(self).quota_left(),
+        ensures *final(self) == (Counts { err_resets: Ghost(old(self).err_resets@ + 1), ..*old(self) }),
+    { unimplemented!() }
 
     #[verifier::external_body]
     pub fn transition_after(&mut self, stream: Stream, is_reset_counted: bool, store: &mut SStore)
@@ -274,9 +294,25 @@ impl Counts {
     { unimplemented!() }
 }
 
-pub struct Send { pub max_stream_id: StreamId, pub init_window_sz: WindowSize, pub tag: u8 }
+pub struct Send { pub max_stream_id: StreamId, pub init_window_sz: WindowSize, pub tag: u8, pub rst: Ghost<Seq<(StreamId, Reason, Initiator)>> }
 impl Send {
     pub fn init_window_sz(&self) -> (r: WindowSize) ensures r == self.init_window_sz { self.init_window_sz }
+
+    /// Send::send_reset (its real body: unit v_send — exactly one RST_STREAM(id, reason) unless the stream is already reset
+    /// or cleanly closed, queue dropped, capacity returned, waiters woken); here: THAT it is called, for which stream, with what
+    #[verifier::external_body]
+    pub fn send_reset(&mut self, reason: Reason, initiator: Initiator, buffer: &mut SendBuf, stream: &mut Stream, counts: &mut Counts, task: &mut Option<Waker>)
+        ensures
+            *final(self) == (Send { rst: Ghost(old(self).rst@.push((old(stream).id, reason, initiator))), ..*old(self) }),
+            final(stream).id == old(stream).id && final(stream).key == old(stream).key && final(stream).ref_count == old(stream).ref_count,
+            *final(counts) == *old(counts),
+    { unimplemented!() }
+
+    /// Send::maybe_reset_next_stream_id (Kani unit send_ids)
+    #[verifier::external_body]
+    pub fn maybe_reset_next_stream_id(&mut self, id: StreamId)
+        ensures final(self).init_window_sz == old(self).init_window_sz && final(self).rst@ == old(self).rst@,
+    { unimplemented!() }
 
     /// Send::reserve_local: the next local stream id (Kani send_ids / unit v_send ensure_next_stream_id)
     #[verifier::external_body]
@@ -349,8 +385,9 @@ impl Send {
     pub fn schedule_implicit_reset(&mut self, stream: &mut Stream, reason: Reason, counts: &mut Counts, task: &mut Option<Waker>)
         requires !old(stream).state.closed(),       // v_send: `if stream.state.is_closed() { return }` — callers only cancel live streams
         ensures
-            final(stream).ref_count == old(stream).ref_count && final(stream).key == old(stream).key
+            final(stream).ref_count == old(stream).ref_count && final(stream).key == old(stream).key && final(stream).id == old(stream).id
                 && final(stream).pending_push_promises == old(stream).pending_push_promises,
+            final(self).init_window_sz == old(self).init_window_sz,
             final(stream).state.closed(),
             *final(task) is None || *final(task) == *old(task),      // wakers are only ever taken (woken), never installed, on this path
             *final(counts) == (Counts { cancelled: Ghost(old(counts).cancelled@ + 1), ..*old(counts) }),
@@ -394,7 +431,11 @@ impl PeerDyn {
     { unimplemented!() }
 }
 
-pub struct Recv { pub last_processed_id: StreamId, pub max_stream_id: StreamId, pub init_window_sz: WindowSize, pub tag: u8 }
+pub struct Recv { pub last_processed_id: StreamId, pub max_stream_id: StreamId, pub init_window_sz: WindowSize, pub tag: u8, pub hlog: Ghost<Seq<HEv>> }
+
+/// what Inner::recv_headers asked of the receive side, in order (ghost)
+#[derive(PartialEq, Eq, Structural, Clone, Copy, Debug)]
+pub enum HEv { Opened(StreamId), Refused(StreamId), HeadersTo(StreamId), TrailersTo(StreamId), Answered431(StreamId), ImplicitReset(StreamId, Reason) }
 impl Recv {
     pub fn init_window_sz(&self) -> (r: WindowSize) ensures r == self.init_window_sz { self.init_window_sz }
 
@@ -435,6 +476,7 @@ impl Recv {
     #[verifier::external_body]
     pub fn enqueue_reset_expiration(&mut self, stream: &mut Stream, counts: &mut Counts)
         ensures final(stream).ref_count == old(stream).ref_count && final(stream).key == old(stream).key && final(stream).state == old(stream).state
+            && final(stream).id == old(stream).id && *final(self) == *old(self)
             && final(stream).pending_push_promises == old(stream).pending_push_promises, *final(counts) == *old(counts),
     { unimplemented!() }
 
@@ -457,15 +499,28 @@ impl Actions {
         match self.conn_error { Some(e) => Err(e), None => Ok(()) }
     }
 
-    /// Actions::reset_on_recv_stream_err (see unit v_recv): a stream error becomes RST_STREAM, or over the quota a
-    /// connection error; anything else passes through
-    #[verifier::external_body]
-    pub fn reset_on_recv_stream_err(&mut self, buffer: &mut SendBuf, stream: &mut Stream, counts: &mut Counts, res: Result<(), Error>) -> (r: Result<(), Error>)
-        ensures
-            final(counts).transitions@ == old(counts).transitions@,
-            !(res matches Err(Error::Reset(_, _, _))) ==> r == res,
-            res matches Err(Error::Reset(_, _, _)) ==> r is Ok || r == Err::<(), Error>(Error::GoAway(Reason::ENHANCE_YOUR_CALM, Initiator::Library)),
-    { unimplemented!() }
+    // C09 containment / C18 quota: what becomes of the result of processing one frame for one stream.  Anything but a
+    // stream error passes through untouched.  A stream error (always for THIS stream: the real debug_assert_eq!, a
+    // precondition) is answered by exactly one Send::send_reset(reason, initiator) for this stream — charged against the
+    // lifetime quota of resets the peer can provoke — and the stream error is CONSUMED (Ok: the connection carries on); with
+    // the quota exhausted nothing is sent and the result is a connection error ENHANCE_YOUR_CALM instead.
+    //@extract src/proto/streams/streams.rs Actions::reset_on_recv_stream_err
+    //@subst_re fn reset_on_recv_stream_err<B>\(\s*&mut self,\s*buffer: &mut Buffer<Frame<B>>,\s*stream: &mut store::Ptr,=>fn reset_on_recv_stream_err(&mut self, buffer: &mut SendBuf, stream: &mut Stream,
+    //@ret r
+    //@spec     requires
+    //@spec         res matches Err(Error::Reset(sid, _, _)) ==> sid == old(stream).id,
+    //@spec     ensures
+    //@spec         final(counts).transitions@ == old(counts).transitions@,
+    //@spec         final(self).recv == old(self).recv && final(self).send.init_window_sz == old(self).send.init_window_sz && final(self).conn_error == old(self).conn_error,
+    //@spec         final(stream).id == old(stream).id && final(stream).key == old(stream).key,
+    //@spec         !(res matches Err(Error::Reset(_, _, _))) ==> r == res && *final(self) == *old(self) && *final(stream) == *old(stream) && *final(counts) == *old(counts),
+    //@spec         res matches Err(Error::Reset(_, _, _)) ==> r is Ok || r == Err::<(), Error>(Error::GoAway(Reason::ENHANCE_YOUR_CALM, Initiator::Library)),
+    //@spec         res matches Err(Error::Reset(sid, reason, initiator)) ==> (old(counts).quota_left() ==> r is Ok
+    //@spec             && final(self).send.rst@ == old(self).send.rst@.push((sid, reason, initiator)) && final(counts).err_resets@ == old(counts).err_resets@ + 1
+    //@spec             && final(stream).recv_task is None),
+    //@spec         (res matches Err(Error::Reset(_, _, _)) && !old(counts).quota_left()) ==> r == Err::<(), Error>(Error::GoAway(Reason::ENHANCE_YOUR_CALM, Initiator::Library))
+    //@spec             && final(self).send.rst@ == old(self).send.rst@ && *final(counts) == *old(counts) && *final(stream) == *old(stream),
+    //@end
 
     /// Actions::ensure_not_idle: id rules of RFC 9113 5.1.1 (Kani units send_ids / recv_ids / inner_recv_reset_unknown_stream)
     #[verifier::external_body]
@@ -669,6 +724,374 @@ impl SInner {
 }
 
 /// StreamRef<B>, reduced to the key of its stream (the Arc<Mutex<Inner>> and the send buffer are passed in, see below)
+
+/// frame::Headers as the dispatch layer sees it
+#[derive(Clone, Copy, Debug)]
+pub struct HdrFrame { pub stream_id: StreamId, pub eos: bool, pub tag: u8 }
+impl HdrFrame {
+    pub fn stream_id(&self) -> (r: StreamId) ensures r == self.stream_id { self.stream_id }
+    pub fn is_end_stream(&self) -> (r: bool) ensures r == self.eos { self.eos }
+}
+pub enum OpenMode { PushPromise, Headers }
+pub enum RecvHeaderBlockError { Oversize(Option<HFrame>), State(Error) }
+
+impl Actions {
+    /// Actions::may_have_forgotten_stream: id rules (Kani unit inner_recv_data_unknown_stream)
+    pub uninterp spec fn forgotten(self, peer: PeerDyn, id: StreamId) -> bool;
+    #[verifier::external_body]
+    pub fn may_have_forgotten_stream(&self, peer: PeerDyn, id: StreamId) -> (r: bool)
+        ensures r == self.forgotten(peer, id),
+    { unimplemented!() }
+}
+
+impl Recv {
+    /// Recv::open (Kani units recv_open_*): Ok(Some(id)) — the id itself — when the stream may be opened, Ok(None) when it is
+    /// refused (RST_STREAM(REFUSED_STREAM) owed), Err = a connection error
+    #[verifier::external_body]
+    pub fn open(&mut self, id: StreamId, mode: OpenMode, counts: &mut Counts) -> (r: Result<Option<StreamId>, Error>)
+        ensures
+            final(self).init_window_sz == old(self).init_window_sz && final(self).max_stream_id == old(self).max_stream_id,
+            final(counts).transitions@ == old(counts).transitions@,
+            match r {
+                Ok(Some(sid)) => sid == id && final(self).hlog@ == old(self).hlog@.push(HEv::Opened(id)),
+                Ok(None) => final(self).hlog@ == old(self).hlog@.push(HEv::Refused(id)),
+                Err(e) => (e matches Error::GoAway(_, Initiator::Library)) && final(self).hlog@ == old(self).hlog@,
+            },
+    { unimplemented!() }
+
+    /// Recv::recv_headers (Kani units recv_recv_headers_*): a State error is a stream or connection error raised by this endpoint
+    #[verifier::external_body]
+    pub fn recv_headers(&mut self, frame: HdrFrame, stream: &mut Stream, counts: &mut Counts) -> (r: Result<(), RecvHeaderBlockError>)
+        ensures
+            final(self).hlog@ == old(self).hlog@.push(HEv::HeadersTo(old(stream).id)),
+            final(self).init_window_sz == old(self).init_window_sz && final(self).max_stream_id == old(self).max_stream_id,
+            final(stream).id == old(stream).id && final(stream).key == old(stream).key,
+            final(counts).transitions@ == old(counts).transitions@,
+            r matches Err(RecvHeaderBlockError::State(e)) ==> (e matches Error::Reset(sid, _, Initiator::Library) && sid == old(stream).id) || (e matches Error::GoAway(_, Initiator::Library)),
+            // an over-size block is answered (431) only while the stream can still send a response
+            r matches Err(RecvHeaderBlockError::Oversize(Some(_))) ==> !final(stream).state.closed(),
+    { unimplemented!() }
+
+    /// Recv::recv_trailers (its real body: unit v_recv)
+    #[verifier::external_body]
+    pub fn recv_trailers(&mut self, frame: HdrFrame, stream: &mut Stream) -> (r: Result<(), Error>)
+        ensures
+            final(self).hlog@ == old(self).hlog@.push(HEv::TrailersTo(old(stream).id)),
+            final(self).init_window_sz == old(self).init_window_sz && final(self).max_stream_id == old(self).max_stream_id,
+            final(stream).id == old(stream).id && final(stream).key == old(stream).key,
+            r matches Err(e) ==> (e matches Error::Reset(sid, _, Initiator::Library) && sid == old(stream).id) || (e matches Error::GoAway(_, Initiator::Library)),
+    { unimplemented!() }
+}
+
+impl Send {
+    /// Send::send_headers for the 431 answer to an over-size request (no claim on the state: the real call site only
+    /// debug_asserts that it succeeded)
+    #[verifier::external_body]
+    pub fn send_headers_answer(&mut self, frame: HFrame, buffer: &mut SendBuf, stream: &mut Stream, counts: &mut Counts, task: &mut Option<Waker>) -> (r: Result<(), UserError>)
+        ensures
+            final(self).init_window_sz == old(self).init_window_sz,
+            final(stream).id == old(stream).id && final(stream).key == old(stream).key && (old(stream).state.closed() == final(stream).state.closed()),
+            final(counts).transitions@ == old(counts).transitions@,
+            r is Ok,      // the real debug_assert!(sent.is_ok(), "oversize response should not fail"): ASSUMED (Recv::recv_headers builds a legal response)
+    { unimplemented!() }
+}
+
+impl SInner {
+    // C09 / C13 / C15 / C02 / C05 / C19: HEADERS from the peer.
+    //   beyond OUR GOAWAY cut-off => ignored, nothing touched (C15);
+    //   unknown stream: (client) one we may have forgotten => STREAM_CLOSED stream error; otherwise Recv::open decides —
+    //     a connection error passes through, a refusal ends the call, an accepted stream is CREATED with the peer's initial
+    //     SEND window and our initial RECEIVE window (precondition of insert_new) (C02/C03);
+    //   a stream still waiting to be opened (never announced to the peer) => connection PROTOCOL_ERROR, stream untouched (C09);
+    //   a locally reset stream => ignored;
+    //   otherwise the frame goes to Recv::recv_headers if the stream awaits headers, else it is trailers: without END_STREAM
+    //     a stream PROTOCOL_ERROR (C13, malformed), with it Recv::recv_trailers; an over-size block is answered with 431 +
+    //     implicit reset (server) or is a stream PROTOCOL_ERROR (client); whatever the result, the stream goes through
+    //     Counts::transition_after exactly once (C05/C19) and a stream error leaves only as a reset of THAT stream.
+    // Listed substitutions: lock preamble removed; the Entry API (`find_entry` / `Occupied(e) => e.key()` / `Vacant(e)` /
+    // `e.insert(stream)` / `store.resolve(key)`) => the owned-store calls `find_mut` / `insert_new`; `Counts::transition(stream,
+    // |counts, stream| BODY)` => `recv_headers_in_transition` (BODY lifted into a method, second extraction below) followed by
+    // `transition_after_any`; Ptrs that go out of scope on early returns => `put_back_*`.
+    //@extract src/proto/streams/streams.rs Inner::recv_headers
+    //@subst_re fn recv_headers<B>\(\s*&mut self,\s*peer: peer::Dyn,\s*send_buffer: &SendBuffer<B>,\s*frame: frame::Headers,\s*\) -> Result<\(\), Error>=>fn recv_headers(&mut self, peer: PeerDyn, send_buffer: &mut SendBuf, frame: HdrFrame) -> Result<(), Error>
+    //@subst let key = match self.store.find_entry(id) {=>let stream = match self.store.find_mut(&id) {
+    //@subst Entry::Occupied(e) => e.key(), ==>> Some(s) => s,
+    //@subst Entry::Vacant(e) => { ==>> None => {
+    //@subst .open(id, Open::Headers, &mut self.counts)?=>.open(id, OpenMode::Headers, &mut self.counts)?
+    //@subst e.insert(stream)=>self.store.insert_new(stream_id, stream, Ghost(self.actions.send.init_window_sz as int), Ghost(self.actions.recv.init_window_sz as int))
+    //@subst let stream = self.store.resolve(key);=>let ghost s0 = stream;
+    //@subst_opt_re if stream\.is_pending_open \{ ==>> if stream.is_pending_open { self.store.put_back_same(stream, Ghost(s0));
+    //@subst_opt_re if stream\.state\.is_local_error\(\) \{ ==>> if stream.state.is_local_error() { self.store.put_back_same(stream, Ghost(s0));
+    //@subst_re let actions = &mut self\.actions;\s*let mut send_buffer = send_buffer\.inner\.lock\(\)\.unwrap\(\);\s*let send_buffer = &mut \*send_buffer;=>
+    //@subst_re self\.counts\.transition\(stream, \|counts, stream\| \{.*\}\)(\s*\}\s*)$ ==>> { let mut stream = stream; let is_pending_reset = stream.is_pending_reset_expiration(); let res_final = self.recv_headers_in_transition(send_buffer, frame, &mut stream); self.counts.transition_after_any(stream, is_pending_reset, &mut self.store); res_final }\1
+    //@ret r
+    //@spec     ensures
+    //@spec         final(self).store.held() == old(self).store.held(),
+    //@spec         // C15: beyond our GOAWAY cut-off: ignored
+    //@spec         frame.stream_id.0 > old(self).actions.recv.max_stream_id.0 ==> r is Ok && final(self).counts.transitions@ == old(self).counts.transitions@
+    //@spec             && final(self).actions.recv.hlog@ == old(self).actions.recv.hlog@,
+    //@spec         // a response for a stream this client has already forgotten
+    //@spec         (frame.stream_id.0 <= old(self).actions.recv.max_stream_id.0 && old(self).store.spec_find(frame.stream_id) is None && !(peer == PeerDyn::Server)
+    //@spec             && old(self).actions.forgotten(peer, frame.stream_id)) ==> r == Err::<(), Error>(Error::Reset(frame.stream_id, Reason::STREAM_CLOSED, Initiator::Library))
+    //@spec             && final(self).actions.recv.hlog@ == old(self).actions.recv.hlog@ && final(self).counts.transitions@ == old(self).counts.transitions@,
+    //@spec         // C09: HEADERS for a stream that was never announced to the peer
+    //@spec         (frame.stream_id.0 <= old(self).actions.recv.max_stream_id.0 && (old(self).store.spec_find(frame.stream_id) matches Some(s) && s.is_pending_open))
+    //@spec             ==> r == Err::<(), Error>(Error::GoAway(Reason::PROTOCOL_ERROR, Initiator::Library)) && final(self).counts.transitions@ == old(self).counts.transitions@
+    //@spec                 && final(self).actions.recv.hlog@ == old(self).actions.recv.hlog@,
+    //@spec         // a known stream that is neither waiting to be opened nor locally reset is processed and transitioned exactly once
+    //@spec         (frame.stream_id.0 <= old(self).actions.recv.max_stream_id.0 && (old(self).store.spec_find(frame.stream_id) matches Some(s) && !s.is_pending_open && !s.state.local_error()))
+    //@spec             ==> final(self).counts.transitions@ == old(self).counts.transitions@ + 1,
+    //@spec         (frame.stream_id.0 <= old(self).actions.recv.max_stream_id.0 && (old(self).store.spec_find(frame.stream_id) matches Some(s) && !s.is_pending_open && s.state.local_error()))
+    //@spec             ==> r is Ok && final(self).counts.transitions@ == old(self).counts.transitions@ && final(self).actions.recv.hlog@ == old(self).actions.recv.hlog@,
+    //@spec         final(self).counts.transitions@ <= old(self).counts.transitions@ + 1,
+    //@spec         // errors that leave: connection errors raised here, or a reset of THIS stream raised by this endpoint
+    //@spec         r matches Err(e) ==> (e matches Error::GoAway(_, Initiator::Library)) || (e matches Error::Reset(id, _, Initiator::Library) && id == frame.stream_id),
+    //@end
+
+    // The closure passed to Counts::transition in Inner::recv_headers, lifted into a method (same source text: everything
+    // outside the closure body is cut away by the first substitution; `actions` is `self.actions`, `counts` is `self.counts`).
+    //@extract src/proto/streams/streams.rs Inner::recv_headers
+    //@subst_re fn recv_headers<B>\(\s*&mut self,\s*peer: peer::Dyn,\s*send_buffer: &SendBuffer<B>,\s*frame: frame::Headers,\s*\) -> Result<\(\), Error>=>fn recv_headers_in_transition(&mut self, send_buffer: &mut SendBuf, frame: HdrFrame, stream: &mut Stream) -> Result<(), Error>
+    //@subst_re ^\s*\{.*?self\.counts\.transition\(stream, \|counts, stream\| \{(.*)\}\)\s*\}\s*$ ==>> {\1}
+    //@subst_re (?<![\w.])actions\.=>self.actions.
+    //@subst match self.actions.recv.recv_headers(frame, stream, counts) {=>match self.actions.recv.recv_headers(frame, stream, &mut self.counts) {
+    //@subst_re let sent = self\.actions\.send\.send_headers\(\s*resp, send_buffer, stream, counts, &mut self\.actions\.task\);=>let ghost sid = stream.id; let sent = self.actions.send.send_headers_answer(resp, send_buffer, stream, &mut self.counts, &mut self.actions.task); proof { self.actions.recv.hlog@ = self.actions.recv.hlog@.push(HEv::Answered431(sid)); }
+    //@subst_re assert!\(sent\.is_ok\(\), "oversize response should not fail"\);=>assert(sent.is_ok());
+    //@subst_re self\.actions\.send\.schedule_implicit_reset\(\s*stream,\s*Reason::PROTOCOL_ERROR,\s*counts,\s*&mut self\.actions\.task\);=>self.actions.send.schedule_implicit_reset(stream, Reason::PROTOCOL_ERROR, &mut self.counts, &mut self.actions.task); proof { self.actions.recv.hlog@ = self.actions.recv.hlog@.push(HEv::ImplicitReset(sid, Reason::PROTOCOL_ERROR)); }
+    //@subst self.actions.recv.enqueue_reset_expiration(stream, counts);=>self.actions.recv.enqueue_reset_expiration(stream, &mut self.counts);
+    //@subst self.actions.reset_on_recv_stream_err(send_buffer, stream, counts, res)=>self.actions.reset_on_recv_stream_err(send_buffer, stream, &mut self.counts, res)
+    //@ret r
+    //@spec     requires
+    //@spec         !old(stream).state.local_error(),
+    //@spec     ensures
+    //@spec         final(self).store == old(self).store && final(self).counts.transitions@ == old(self).counts.transitions@,
+    //@spec         final(stream).id == old(stream).id && final(stream).key == old(stream).key,
+    //@spec         (old(stream).state.recv_headers() || frame.eos) ==> final(self).actions.recv.hlog@.len() > old(self).actions.recv.hlog@.len(),
+    //@spec         // headers go to recv_headers, anything later is trailers
+    //@spec         old(stream).state.recv_headers() ==> final(self).actions.recv.hlog@[old(self).actions.recv.hlog@.len() as int] == HEv::HeadersTo(old(stream).id),
+    //@spec         // C13: trailers that do not end the stream are malformed: a stream PROTOCOL_ERROR, nothing is delivered
+    //@spec         (!old(stream).state.recv_headers() && !frame.eos) ==> r == Err::<(), Error>(Error::Reset(old(stream).id, Reason::PROTOCOL_ERROR, Initiator::Library))
+    //@spec             && final(self).actions.recv.hlog@ == old(self).actions.recv.hlog@,
+    //@spec         (!old(stream).state.recv_headers() && frame.eos) ==> final(self).actions.recv.hlog@ == old(self).actions.recv.hlog@.push(HEv::TrailersTo(old(stream).id)),
+    //@spec         r matches Err(e) ==> (e matches Error::GoAway(_, Initiator::Library)) || (e matches Error::Reset(id, _, Initiator::Library) && id == old(stream).id),
+    //@end
+}
+
+
+/// frame::PushPromise as the dispatch layer sees it
+#[derive(Clone, Copy, Debug)]
+pub struct PPRecv { pub stream_id: StreamId, pub promised_id: StreamId, pub tag: u8 }
+impl PPRecv {
+    pub fn stream_id(&self) -> (r: StreamId) ensures r == self.stream_id { self.stream_id }
+    pub fn promised_id(&self) -> (r: StreamId) ensures r == self.promised_id { self.promised_id }
+}
+
+impl QueuePP {
+    /// Queue<NextAccept>::push of a stream that is not queued yet
+    #[verifier::external_body]
+    pub fn push(&mut self, stream: &mut Stream) -> (r: bool)
+        ensures final(self).ghost_len == old(self).ghost_len + 1, final(stream).key == old(stream).key && final(stream).id == old(stream).id,
+    { unimplemented!() }
+}
+
+impl SStore {
+    /// the parent of an accepted PUSH_PROMISE goes back to the store: C01 / C06 — the promised stream was APPENDED to its
+    /// queue of unclaimed pushed streams (nothing else in the queue lost) and the task waiting for a push was woken
+    #[verifier::external_body]
+    pub fn put_back_parent(&mut self, stream: Stream, s0: Ghost<Stream>)
+        requires
+            stream.pending_push_promises.ghost_len == s0@.pending_push_promises.ghost_len + 1,
+            stream.push_task is None,
+            stream.key == s0@.key && stream.id == s0@.id && stream.state == s0@.state && stream.ref_count == s0@.ref_count,
+        ensures final(self).held() == old(self).held() - 1 && final(self).passes@ == old(self).passes@,
+    { unimplemented!() }
+}
+
+impl Recv {
+    /// Recv::ensure_can_reserve: push disabled by our SETTINGS_ENABLE_PUSH=0 => connection PROTOCOL_ERROR (Kani unit recv_ensure_can_reserve)
+    pub uninterp spec fn push_enabled(self) -> bool;
+    #[verifier::external_body]
+    pub fn ensure_can_reserve(&self) -> (r: Result<(), Error>)
+        ensures self.push_enabled() ==> r is Ok, !self.push_enabled() ==> r == Err::<(), Error>(Error::GoAway(Reason::PROTOCOL_ERROR, Initiator::Library)),
+    { unimplemented!() }
+
+    /// Recv::recv_push_promise: validates the promised request and queues it on the promised stream
+    #[verifier::external_body]
+    pub fn recv_push_promise(&mut self, frame: PPRecv, stream: &mut Stream) -> (r: Result<(), Error>)
+        requires old(stream).id == frame.promised_id,
+        ensures
+            final(self).init_window_sz == old(self).init_window_sz && final(self).max_stream_id == old(self).max_stream_id,
+            final(self).hlog@ == old(self).hlog@.push(HEv::HeadersTo(old(stream).id)),
+            final(stream).id == old(stream).id && final(stream).key == old(stream).key,
+            // unit v_recv: a refused promise is a stream error on the PROMISED stream (or what convert_poll_message reports for it)
+            r matches Err(e) ==> (e matches Error::Reset(sid, _, Initiator::Library) && sid == frame.promised_id) || (e matches Error::GoAway(_, Initiator::Library)),
+    { unimplemented!() }
+}
+
+impl SInner {
+    // C04 / C09 / C15 / C02 / C01: PUSH_PROMISE from the peer.
+    //   unknown parent stream => connection PROTOCOL_ERROR; parent beyond OUR GOAWAY cut-off => ignored; parent not
+    //   receive-open (closed, half-closed(remote), reserved(local)) => connection PROTOCOL_ERROR, a parent that failed
+    //   earlier => that error (C04: PUSH_PROMISE only on a stream the peer may still send on); push disabled by our settings
+    //   => connection PROTOCOL_ERROR (C09); Recv::open decides about the promised id (connection error / refusal / accepted);
+    //   an accepted promised stream is CREATED with the peer's initial SEND window and our initial RECEIVE window (C02) and
+    //   goes through Counts::transition_after exactly once; if its request is valid it is APPENDED to the parent's queue of
+    //   unclaimed pushed streams and the task waiting for a push is woken (obligations of put_back_parent).
+    // Listed substitutions: generics; Ptrs that go out of scope => put_back_*; `?` with a Ptr held written out;
+    // `store.insert(..)` => insert_new; the closure of Counts::transition lifted (second extraction below); the index
+    // expression `self.store[parent_key]` and `&mut self.store.resolve(..)` temporaries => resolve_key / put_back.
+    //@extract src/proto/streams/streams.rs Inner::recv_push_promise
+    //@subst_re fn recv_push_promise<B>\(\s*&mut self,\s*send_buffer: &SendBuffer<B>,\s*frame: frame::PushPromise,\s*\) -> Result<\(\), Error>=>fn recv_push_promise(&mut self, send_buffer: &mut SendBuf, frame: PPRecv) -> Result<(), Error>
+    //@subst Some(stream) => { ==>> Some(stream) => { let ghost p0 = stream;
+    //@subst_opt_re if id > self\.actions\.recv\.max_stream_id\(\) \{ ==>> if id > self.actions.recv.max_stream_id() { self.store.put_back_same(stream, Ghost(p0));
+    //@subst_opt_re if !stream\.state\.ensure_recv_open\(\)\? \{ ==>> let _ro = match stream.state.ensure_recv_open() { Ok(b) => b, Err(e) => { self.store.put_back_same(stream, Ghost(p0)); return Err(e); } }; if !_ro { self.store.put_back_same(stream, Ghost(p0));
+    //@subst_re stream\.key\(\)(\s*\}\s*None => \{) ==>> let _k = stream.key(); self.store.put_back_same(stream, Ghost(p0)); _k\1
+    //@subst .open(promised_id, Open::PushPromise, &mut self.counts)?=>.open(promised_id, OpenMode::PushPromise, &mut self.counts)?
+    //@subst_re let stream = self\.store\.insert\(promised_id, \{\s*Stream::new\((.*?)\)\s*\}\); ==>> let stream = self.store.insert_new(promised_id, Stream::new(\1), Ghost(self.actions.send.init_window_sz as int), Ghost(self.actions.recv.init_window_sz as int));
+    //@subst let child_key: Option<store::Key> = {=>let child_key: Option<Key> = {
+    //@subst let actions = &mut self.actions;=>
+    //@subst_re self\.counts\.transition\(stream, \|counts, stream\| \{.*?\}\)\?(\s*\};) ==>> { let mut stream = stream; let is_pending_reset = stream.is_pending_reset_expiration(); let res_t = self.recv_push_promise_in_transition(send_buffer, frame, &mut stream); self.counts.transition_after_any(stream, is_pending_reset, &mut self.store); res_t }?\1
+    //@subst let mut ppp = self.store[parent_key].pending_push_promises.take();=>let mut parent = self.store.resolve_key(parent_key); let ghost par0 = parent; let mut ppp = parent.pending_push_promises.take();
+    //@subst_opt_re ppp\.push\(&mut self\.store\.resolve\(child\)\); ==>> let mut _c = self.store.resolve_key(child); ppp.push(&mut _c); self.store.put_back_any(_c);
+    //@subst let parent = &mut self.store.resolve(parent_key);=>
+    //@subst_re \};(\s*Ok\(\(\)\)\s*\}\s*)$ ==>> self.store.put_back_parent(parent, Ghost(par0)); };\1
+    //@ret r
+    //@spec     ensures
+    //@spec         final(self).store.held() == old(self).store.held(),
+    //@spec         // C09: PUSH_PROMISE on a stream we do not know
+    //@spec         old(self).store.spec_find(frame.stream_id) is None ==> r == Err::<(), Error>(Error::GoAway(Reason::PROTOCOL_ERROR, Initiator::Library))
+    //@spec             && final(self).counts.transitions@ == old(self).counts.transitions@ && final(self).actions.recv.hlog@ == old(self).actions.recv.hlog@,
+    //@spec         // C15: parent beyond our GOAWAY cut-off: ignored
+    //@spec         (old(self).store.spec_find(frame.stream_id) is Some && frame.stream_id.0 > old(self).actions.recv.max_stream_id.0) ==> r is Ok
+    //@spec             && final(self).counts.transitions@ == old(self).counts.transitions@ && final(self).actions.recv.hlog@ == old(self).actions.recv.hlog@,
+    //@spec         // C04: the parent must be receive-open
+    //@spec         (old(self).store.spec_find(frame.stream_id) matches Some(p) && frame.stream_id.0 <= old(self).actions.recv.max_stream_id.0 && !(p.state.recv_open_spec() matches Ok(true)))
+    //@spec             ==> r is Err && final(self).counts.transitions@ == old(self).counts.transitions@ && final(self).actions.recv.hlog@ == old(self).actions.recv.hlog@,
+    //@spec         // C09: push disabled
+    //@spec         (old(self).store.spec_find(frame.stream_id) matches Some(p) && frame.stream_id.0 <= old(self).actions.recv.max_stream_id.0 && (p.state.recv_open_spec() matches Ok(true))
+    //@spec             && !old(self).actions.recv.push_enabled()) ==> r == Err::<(), Error>(Error::GoAway(Reason::PROTOCOL_ERROR, Initiator::Library))
+    //@spec                 && final(self).counts.transitions@ == old(self).counts.transitions@ && final(self).actions.recv.hlog@ == old(self).actions.recv.hlog@,
+    //@spec         final(self).counts.transitions@ <= old(self).counts.transitions@ + 1,
+    //@spec         // nothing but connection errors (or the error the parent already failed with) leaves
+    //@spec         r matches Err(e) ==> (e matches Error::GoAway(_, Initiator::Library)) || (old(self).store.spec_find(frame.stream_id) matches Some(p) && p.state.recv_open_spec() == Err::<bool, Error>(e)),
+    //@end
+
+    // the closure of Counts::transition in Inner::recv_push_promise, lifted
+    //@extract src/proto/streams/streams.rs Inner::recv_push_promise
+    //@subst_re fn recv_push_promise<B>\(\s*&mut self,\s*send_buffer: &SendBuffer<B>,\s*frame: frame::PushPromise,\s*\) -> Result<\(\), Error>=>fn recv_push_promise_in_transition(&mut self, send_buffer: &mut SendBuf, frame: PPRecv, stream: &mut Stream) -> Result<Option<Key>, Error>
+    //@subst_re ^\s*\{.*?self\.counts\.transition\(stream, \|counts, stream\| \{(.*?)\}\)\?\s*\};.*$ ==>> {\1}
+    //@subst_re (?<![\w.])actions(\s*)\.=>self.actions\1.
+    //@subst let mut send_buffer = send_buffer.inner.lock().unwrap();=>
+    //@subst_re self\.actions\s*\.reset_on_recv_stream_err\(\s*&mut \*send_buffer,\s*stream,\s*counts,\s*stream_valid,\s*\)\s*\.map\(\|\(\)\| None\) ==>> match self.actions.reset_on_recv_stream_err(send_buffer, stream, &mut self.counts, stream_valid) { Ok(()) => Ok(None), Err(e) => Err(e) }
+    //@ret r
+    //@spec     requires old(stream).id == frame.promised_id,
+    //@spec     ensures
+    //@spec         final(self).store == old(self).store && final(self).counts.transitions@ == old(self).counts.transitions@,
+    //@spec         final(stream).id == old(stream).id && final(stream).key == old(stream).key,
+    //@spec         final(self).actions.recv.hlog@ == old(self).actions.recv.hlog@.push(HEv::HeadersTo(old(stream).id)),
+    //@spec         r matches Ok(Some(k)) ==> k == old(stream).key,
+    //@spec         r matches Err(e) ==> (e matches Error::GoAway(_, Initiator::Library)),
+    //@end
+}
+
+
+/// crate::proto::error::GoAway { debug_data, reason } (debug data not modelled)
+#[derive(PartialEq, Eq, Structural, Clone, Copy, Debug)]
+pub struct ErrGoAway { pub reason: Reason }
+
+impl Initiator {
+    //@extract src/proto/error.rs Initiator::is_library
+    //@ret r
+    //@spec     ensures r == (self matches Initiator::Library),
+    //@end
+}
+
+impl Recv {
+    /// Recv::maybe_reset_next_stream_id (Kani unit recv_ids)
+    #[verifier::external_body]
+    pub fn maybe_reset_next_stream_id(&mut self, id: StreamId)
+        ensures final(self).init_window_sz == old(self).init_window_sz && final(self).max_stream_id == old(self).max_stream_id && final(self).hlog@ == old(self).hlog@,
+    { unimplemented!() }
+}
+
+impl SStore {
+    /// Store::insert of the placeholder record `Stream::new(id, 0, 0)` that Inner::send_reset creates for a stream it does
+    /// not know (it is reset at once; its windows are never used): NOT subject to the new-stream window obligation
+    #[verifier::external_body]
+    pub fn insert_placeholder(&mut self, id: StreamId, stream: Stream) -> (s: Stream)
+        requires stream.id == id, stream.send_flow.w() == 0 && stream.recv_flow.w() == 0,
+        ensures s == (Stream { key: s.key, ..stream }) && final(self).held() == old(self).held() + 1 && final(self).passes@ == old(self).passes@,
+    { unimplemented!() }
+}
+
+impl Actions {
+    // C17 / C18 / C09: resetting a stream on behalf of the library or the user.  A LIBRARY reset (the peer misbehaved) is
+    // charged against the lifetime quota first; with the quota exhausted NOTHING is sent and the caller gets
+    // GoAway(ENHANCE_YOUR_CALM) (which DynConnection::handle_poll2_result turns into the connection error: unit
+    // v_connection); otherwise exactly one Send::send_reset(reason, initiator) for this stream, the reader is woken; in every
+    // case the stream goes through Counts::transition_after exactly once.
+    // Listed substitutions: the consumed `Ptr` => the owned stream + the store it came from (extra parameter); the closure of
+    // Counts::transition lifted (second extraction); debug data of the GoAway not modelled.
+    //@extract src/proto/streams/streams.rs Actions::send_reset
+    //@subst_re fn send_reset<B>\(\s*&mut self,\s*stream: store::Ptr,\s*reason: Reason,\s*initiator: Initiator,\s*counts: &mut Counts,\s*send_buffer: &mut Buffer<Frame<B>>,\s*\) -> Result<\(\), crate::proto::error::GoAway>=>fn send_reset(&mut self, stream: Stream, reason: Reason, initiator: Initiator, counts: &mut Counts, send_buffer: &mut SendBuf, store: &mut SStore) -> Result<(), ErrGoAway>
+    //@subst_re counts\.transition\(stream, \|counts, stream\| \{.*\}\)(\s*\}\s*)$ ==>> { let mut stream = stream; let is_pending_reset = stream.is_pending_reset_expiration(); let res_t = self.send_reset_in_transition(&mut stream, reason, initiator, counts, send_buffer); counts.transition_after_any(stream, is_pending_reset, store); res_t }\1
+    //@ret r
+    //@spec     ensures
+    //@spec         final(store).held() == old(store).held() - 1,
+    //@spec         final(counts).transitions@ == old(counts).transitions@ + 1,
+    //@spec         final(self).recv == old(self).recv && final(self).conn_error == old(self).conn_error && final(self).send.init_window_sz == old(self).send.init_window_sz,
+    //@spec         // over the quota: nothing is sent
+    //@spec         (initiator == Initiator::Library && !old(counts).quota_left()) ==> r == Err::<(), ErrGoAway>(ErrGoAway { reason: Reason::ENHANCE_YOUR_CALM })
+    //@spec             && final(self).send.rst@ == old(self).send.rst@ && final(counts).err_resets@ == old(counts).err_resets@,
+    //@spec         // otherwise exactly one reset of this stream with exactly this reason and initiator
+    //@spec         !(initiator == Initiator::Library && !old(counts).quota_left()) ==> r is Ok && final(self).send.rst@ == old(self).send.rst@.push((stream.id, reason, initiator))
+    //@spec             && final(counts).err_resets@ == old(counts).err_resets@ + (if initiator == Initiator::Library { 1int } else { 0int }),
+    //@end
+
+    //@extract src/proto/streams/streams.rs Actions::send_reset
+    //@subst_re fn send_reset<B>\(\s*&mut self,\s*stream: store::Ptr,\s*reason: Reason,\s*initiator: Initiator,\s*counts: &mut Counts,\s*send_buffer: &mut Buffer<Frame<B>>,\s*\) -> Result<\(\), crate::proto::error::GoAway>=>fn send_reset_in_transition(&mut self, stream: &mut Stream, reason: Reason, initiator: Initiator, counts: &mut Counts, send_buffer: &mut SendBuf) -> Result<(), ErrGoAway>
+    //@subst_re ^\s*\{\s*counts\.transition\(stream, \|counts, stream\| \{(.*)\}\)\s*\}\s*$ ==>> {\1}
+    //@subst_re return Err\(crate::proto::error::GoAway \{\s*reason: Reason::ENHANCE_YOUR_CALM,\s*debug_data: "too_many_internal_resets"\.into\(\),\s*\}\);=>return Err(ErrGoAway { reason: Reason::ENHANCE_YOUR_CALM });
+    //@ret r
+    //@spec     ensures
+    //@spec         final(counts).transitions@ == old(counts).transitions@,
+    //@spec         final(self).recv == old(self).recv && final(self).conn_error == old(self).conn_error && final(self).send.init_window_sz == old(self).send.init_window_sz,
+    //@spec         final(stream).id == old(stream).id && final(stream).key == old(stream).key,
+    //@spec         (initiator == Initiator::Library && !old(counts).quota_left()) ==> r == Err::<(), ErrGoAway>(ErrGoAway { reason: Reason::ENHANCE_YOUR_CALM })
+    //@spec             && final(self).send.rst@ == old(self).send.rst@ && *final(counts) == *old(counts) && *final(stream) == *old(stream),
+    //@spec         !(initiator == Initiator::Library && !old(counts).quota_left()) ==> r is Ok && final(self).send.rst@ == old(self).send.rst@.push((old(stream).id, reason, initiator))
+    //@spec             && final(counts).err_resets@ == old(counts).err_resets@ + (if initiator == Initiator::Library { 1int } else { 0int })
+    //@spec             && final(stream).recv_task is None,
+    //@end
+}
+
+impl SInner {
+    // C17 / C09: the connection layer resets stream `id` after a stream error raised while reading (DynConnection::
+    // handle_poll2_result).  A stream we do not know gets a placeholder record so that later frames for it are recognised as
+    // "for a reset stream" (and the next-id bookkeeping of the side that would have opened it is advanced); then exactly
+    // Actions::send_reset(.., Initiator::Library) above.  Every Ptr is handed back; exactly one transition.
+    //@extract src/proto/streams/streams.rs Inner::send_reset
+    //@subst_re fn send_reset<B>\(\s*&mut self,\s*send_buffer: &SendBuffer<B>,\s*id: StreamId,\s*reason: Reason,\s*\) -> Result<\(\), crate::proto::error::GoAway>=>fn send_reset(&mut self, send_buffer: &mut SendBuf, id: StreamId, reason: Reason) -> Result<(), ErrGoAway>
+    //@subst let key = match self.store.find_entry(id) {=>let stream = match self.store.find_mut(&id) {
+    //@subst Entry::Occupied(e) => e.key(), ==>> Some(s) => s,
+    //@subst Entry::Vacant(e) => { ==>> None => {
+    //@subst e.insert(stream)=>self.store.insert_placeholder(id, stream)
+    //@subst_re let stream = self\.store\.resolve\(key\);\s*let mut send_buffer = send_buffer\.inner\.lock\(\)\.unwrap\(\);\s*let send_buffer = &mut \*send_buffer;=>
+    //@subst_re &mut self\.counts,\s*send_buffer,\s*\)=>&mut self.counts, send_buffer, &mut self.store)
+    //@ret r
+    //@spec     requires
+    //@spec         // a stream error names a stream: errors about stream 0 are connection errors (decode_frame_* units); the real
+    //@spec         // `assert!(!id.is_zero())` of peer::Dyn::is_local_init
+    //@spec         id.0 != 0,
+    //@spec     ensures
+    //@spec         final(self).store.held() == old(self).store.held(),
+    //@spec         final(self).counts.transitions@ == old(self).counts.transitions@ + 1,
+    //@spec         !old(self).counts.quota_left() ==> r == Err::<(), ErrGoAway>(ErrGoAway { reason: Reason::ENHANCE_YOUR_CALM }) && final(self).actions.send.rst@ == old(self).actions.send.rst@,
+    //@spec         old(self).counts.quota_left() ==> r is Ok && final(self).actions.send.rst@ == old(self).actions.send.rst@.push((id, reason, Initiator::Library))
+    //@spec             && final(self).counts.err_resets@ == old(self).counts.err_resets@ + 1,
+    //@end
+}
+
 pub struct StreamRefM { pub key: Key }
 
 //@extract src/proto/streams/streams.rs OpaqueStreamRef::new
